@@ -44,6 +44,20 @@ impl<'n> TryFromNode<'n> for Field {
 
         target_namespace.clone_from(&doc.current_target_namespace);
 
+        // a local element is in the target namespace only when its form is "qualified": by its own form attribute,
+        // else by the elementFormDefault of its schema (whose default is "unqualified"); references to global
+        // elements are always qualified
+        if node.tag_name().name() == "element" && node.attribute("ref").is_none() {
+            let form = node.attribute("form").or_else(|| {
+                node.ancestors()
+                    .find(|n| n.tag_name().name() == "schema")
+                    .map(|schema| schema.attribute("elementFormDefault").unwrap_or("unqualified"))
+            });
+            if form == Some("unqualified") {
+                target_namespace = None;
+            }
+        }
+
         let is_attribute = node.tag_name().name() == "attribute";
         // the sequences and choices between this member and its type definition: their occurrence applies to the member
         let particles = || {
